@@ -444,22 +444,79 @@ def witness_kw():
             "threshold": list(WITNESS["threshold"]), "average": None}
 
 
+def outs_json(o):
+    return o[1] if o[0] == "err" else [x.tolist() for x in o[1]]
+
+
+def floored_verdict(fn, kw, real):
+    """`multiclass_binned_auroc` against the per-class one-vs-rest binned AUROC (= exact AUROC of the floored scores):
+    None or (signature, what, extra).  Judges the Lean witness input and a replay of it."""
+    exp = oracle(fn, kw, floored=True)
+    if oracle_agrees(real, exp) is not False:
+        return None
+    got = real[1][0].tolist() if real[0] == "ok" else real[1]
+    return (KNOWN_SIG,
+            f"multiclass_binned_auroc({kw['input'].shape[0]} samples, {kw['input'].shape[1]} classes, average={kw.get('average', 'macro')}) returns {got} (one value per sample: "
+            f"_multiclass_binned_auroc_compute reduces over dim=-1 = classes) where the per-class one-vs-rest binned AUROC is "
+            f"{[str(v) for v in exp[0]]}", {"kind": "witness", "case": kw_json(fn, kw), "floored": True, "real": got, "textbook": [str(v) for v in exp[0]]})
+
+
 def check_known_finding(rep: Report):
     """`multiclass_binned_auroc` returns one value per sample (reduction over the class axis) instead of the
     per-class one-vs-rest binned AUROC. Replayed on the witness input of TE.C06.multiclass_binned_auroc_witness."""
     kw = witness_kw()
     real = real_call("multiclass_binned_auroc", kw)
-    exp = oracle("multiclass_binned_auroc", kw, floored=True)
     rep.case(nontrivial_key=("witness", "multiclass_binned_auroc"))
-    if oracle_agrees(real, exp) is False:
-        got = real[1][0].tolist() if real[0] == "ok" else real[1]
-        rep.violation(KNOWN_SIG,
-                      f"multiclass_binned_auroc(4 samples, 3 classes, average=None) returns {got} (one value per sample: "
-                      f"_multiclass_binned_auroc_compute reduces over dim=-1 = classes) where the per-class one-vs-rest binned AUROC is "
-                      f"{[str(v) for v in exp[0]]}", {"case": kw_json("multiclass_binned_auroc", kw), "floored": True,
-                                                    "real": got, "textbook": [str(v) for v in exp[0]]})
+    v = floored_verdict("multiclass_binned_auroc", kw, real)
+    if v is not None:
+        rep.violation(*v)
 
 # ------------------------------------------------------------------ the run
+
+
+def statement_verdict(fn, kw, real, count=lambda key: None):
+    """the C06 statement on the real code alone (no model), in the order of the sweep:
+      (1) per-threshold counting oracle, (2) vectorized = memory (bitwise), (3) binned AUROC / AUPRC = the exact value on
+      floored scores (Fractions, then the real un-binned functional), (K) the recorded finding of multiclass_binned_auroc.
+    returns (None | (signature, what, extra replay fields), agrees-with-counting-oracle)."""
+    kind = fn.split("_binned_")[1]
+    t = thr_fracs(kw["threshold"])
+    realj = outs_json(real)
+    exp = oracle(fn, kw)
+    agrees = oracle_agrees(real, exp)
+    if agrees is False:
+        return (sig(fn, kw, "differs-from-per-threshold-counting"),
+                f"{fn} returns {realj} where per-threshold counting gives {[[str(v) for v in l] for l in exp]}",
+                {"relation": "counting", "textbook": [[str(v) for v in l] for l in exp]}), agrees
+    if "optimization" in kw and kw["optimization"] in ("vectorized", "memory") and t:
+        other = real_call(fn, other_mode(kw))
+        count("modes-compared")
+        if not same_outputs(real, other):
+            return (sig(fn, kw, "vectorized-differs-from-memory"),
+                    f"{fn}: optimization={kw['optimization']} gives {realj}, the other mode gives {outs_json(other)}", {"relation": "modes"}), agrees
+    if kind in ("auroc", "auprc") and fn != "multiclass_binned_auroc" and real[0] == "ok":
+        expf = oracle(fn, kw, floored=True)
+        if expf is not None and t and t[0] == 0:
+            count("floor-compared")
+            if not lists_close(flat_real(real), expf, 2e-5):
+                return (sig(fn, kw, "differs-from-exact-on-floored-scores"),
+                        f"{fn} returns {realj[0]} where the exact value on floored scores is {[str(v) for v in expf[0]]}",
+                        {"relation": "floor", "floored": True, "textbook": [[str(v) for v in l] for l in expf]}), agrees
+            second = floored_exact_real(fn, kw)
+            if second is not None and second[0] == "ok":
+                count("floor-compared-real-unbinned")
+                a = real[1][0].reshape(-1).to(torch.float64).tolist()
+                b = second[1][0].reshape(-1).to(torch.float64).tolist()
+                if not lists_close([a], [b], 2e-5):
+                    return (sig(fn, kw, "differs-from-unbinned-functional-on-floored-scores"),
+                            f"{fn} returns {a} where the un-binned functional on floored scores returns {b}", {"relation": "floor-real", "unbinned": b}), agrees
+    if fn == "multiclass_binned_auroc" and real[0] == "ok":
+        expf = oracle(fn, kw, floored=True)
+        if expf is not None and t and t[0] == 0 and not lists_close(flat_real(real), expf, 2e-5):
+            count("known-finding-instances")
+            return (KNOWN_SIG, f"multiclass_binned_auroc returns {realj[0]} (per sample) where the per-class one-vs-rest "
+                    f"binned AUROC is {[str(v) for v in expf[0]]}", {"relation": "per-class", "floored": True, "textbook": [[str(v) for v in l] for l in expf]}), agrees
+    return None, agrees
 
 
 def check_cases(rep: Report, cases, stream: str, deadline: float):
@@ -494,51 +551,13 @@ def check_cases(rep: Report, cases, stream: str, deadline: float):
         nontriv = bool(t) and bool(xsflat)
         rep.case(nontrivial_key=(fn, repr(kw_json(fn, kw))) if nontriv else None,
                  sample={"request": line, "model": o} if rep.evaluations % 4001 == 0 else None)
-        replay = {"case": kw_json(fn, kw), "real": real[1] if real[0] == "err" else [x.tolist() for x in real[1]], "model": o}
-        # (1) the property on the real code: per-threshold counting oracle
-        exp = oracle(fn, kw)
-        agrees = oracle_agrees(real, exp)
-        if agrees is False:
-            rep.violation(sig(fn, kw, "differs-from-per-threshold-counting"),
-                          f"{fn} returns {replay['real']} where per-threshold counting gives {[[str(v) for v in l] for l in exp]}",
-                          {**replay, "textbook": [[str(v) for v in l] for l in exp]})
-            continue
-        # (2) vectorized = memory, bitwise, on the real code
-        if "optimization" in kw and kw["optimization"] in ("vectorized", "memory") and t:
-            other = real_call(fn, other_mode(kw))
-            rep.count("modes-compared")
-            if not same_outputs(real, other):
-                rep.violation(sig(fn, kw, "vectorized-differs-from-memory"),
-                              f"{fn}: optimization={kw['optimization']} gives {replay['real']}, the other mode gives "
-                              f"{other[1] if other[0] == 'err' else [x.tolist() for x in other[1]]}", {**replay, "relation": "modes"})
+        replay = {"kind": "functional", "case": kw_json(fn, kw), "real": outs_json(real), "model": o}
+        # (1)-(3) the property on the real code (the same function decides search() and replay())
+        v, agrees = statement_verdict(fn, kw, real, rep.count)
+        if v is not None:
+            rep.violation(v[0], v[1], {**replay, **v[2]})
+            if v[0] != KNOWN_SIG:
                 continue
-        # (3) floor statement: exact AUROC/AUPRC of the floored scores (Fractions, and the real un-binned functionals)
-        if kind in ("auroc", "auprc") and fn != "multiclass_binned_auroc" and real[0] == "ok":
-            expf = oracle(fn, kw, floored=True)
-            if expf is not None and t and t[0] == 0:
-                rep.count("floor-compared")
-                if not lists_close(flat_real(real), expf, 2e-5):
-                    rep.violation(sig(fn, kw, "differs-from-exact-on-floored-scores"),
-                                  f"{fn} returns {replay['real'][0]} where the exact value on floored scores is {[str(v) for v in expf[0]]}",
-                                  {**replay, "floored": True, "textbook": [[str(v) for v in l] for l in expf]})
-                    continue
-                second = floored_exact_real(fn, kw)
-                if second is not None and second[0] == "ok":
-                    rep.count("floor-compared-real-unbinned")
-                    a = real[1][0].reshape(-1).to(torch.float64).tolist()
-                    b = second[1][0].reshape(-1).to(torch.float64).tolist()
-                    if not lists_close([a], [b], 2e-5):
-                        rep.violation(sig(fn, kw, "differs-from-unbinned-functional-on-floored-scores"),
-                                      f"{fn} returns {a} where the un-binned functional on floored scores returns {b}",
-                                      {**replay, "relation": "floor-real", "unbinned": b})
-                        continue
-        if fn == "multiclass_binned_auroc" and real[0] == "ok":
-            expf = oracle(fn, kw, floored=True)
-            if expf is not None and t and t[0] == 0 and not lists_close(flat_real(real), expf, 2e-5):
-                rep.count("known-finding-instances")
-                rep.violation(KNOWN_SIG, f"multiclass_binned_auroc returns {replay['real'][0]} (per sample) where the per-class one-vs-rest "
-                              f"binned AUROC is {[str(v) for v in expf[0]]}", {**replay, "floored": True,
-                                                                             "textbook": [[str(v) for v in l] for l in expf]})
         # (4) model vs real
         msg = outcomes_agree(real, model)
         if msg is None:
@@ -587,32 +606,48 @@ def check_spec_oracles(rep: Report, rng: Rng, nreq: int):
     rep.streams["spec-oracles"] = {"cases": len(cases), "disagreements": bad}
 
 
-def check_threshold_glue(rep: Report):
-    """`_create_threshold_tensor`: int -> linspace(0,1,n) (sorted, length n, endpoints 0 and 1, within 1 ulp of i/(n-1));
-    list -> tensor of the same values; tensor -> the same object."""
+def glue_verdict(form: str, value):
+    """`_create_threshold_tensor` on one argument: None or (signature, what).  form `int`: value n; `list` / `tensor`: the list of floats."""
     dev = torch.device("cpu")
-    for n in list(range(1, 131)) + [200, 257, 1000]:
+    if form == "int":
+        n = value
         t = _create_threshold_tensor(n, dev)
-        rep.count("glue:int")
-        rep.case(nontrivial_key=("glue", n))
         v = t.tolist()
         ok = (t.ndim == 1 and len(v) == n and t.dtype == torch.float32 and all(b >= a for a, b in zip(v, v[1:]))
               and v[0] == 0.0 and (n == 1 or v[-1] == 1.0)
               and all(abs(Fr(x) - Fr(i, max(n - 1, 1))) <= Fr(1, 2 ** 23) for i, x in enumerate(v)))
-        if not ok:
-            rep.violation("C06|_create_threshold_tensor|int|not-the-uniform-grid", f"_create_threshold_tensor({n}) = {v[:6]}…",
-                          {"glue": n, "values": v})
-            return
-    for l in ALL_THR[::7] + BAD_THR:
+        return None if ok else ("C06|_create_threshold_tensor|int|not-the-uniform-grid", f"_create_threshold_tensor({n}) = {v[:6]}…")
+    l = list(value)
+    if form == "list":
         t = _create_threshold_tensor(list(l), dev)
-        rep.count("glue:list")
         if t.tolist() != [float(torch.tensor(x, dtype=torch.float32)) for x in l] or t.ndim != 1:
-            rep.violation("C06|_create_threshold_tensor|list|values-changed", f"_create_threshold_tensor({l}) = {t.tolist()}", {"glue": l})
-            return
+            return ("C06|_create_threshold_tensor|list|values-changed", f"_create_threshold_tensor({l}) = {t.tolist()}")
+        return None
+    if form == "tensor":
         tt = torch.tensor(l)
         if _create_threshold_tensor(tt, dev) is not tt:
-            rep.violation("C06|_create_threshold_tensor|tensor|not-passed-through", f"tensor threshold {l} was copied or changed", {"glue": l})
+            return ("C06|_create_threshold_tensor|tensor|not-passed-through", f"tensor threshold {l} was copied or changed")
+        return None
+    raise KeyError(form)
+
+
+def check_threshold_glue(rep: Report):
+    """`_create_threshold_tensor`: int -> linspace(0,1,n) (sorted, length n, endpoints 0 and 1, within 1 ulp of i/(n-1));
+    list -> tensor of the same values; tensor -> the same object."""
+    for n in list(range(1, 131)) + [200, 257, 1000]:
+        rep.count("glue:int")
+        rep.case(nontrivial_key=("glue", n))
+        v = glue_verdict("int", n)
+        if v:
+            rep.violation(v[0], v[1], {"kind": "glue", "form": "int", "glue": n})
             return
+    for l in ALL_THR[::7] + BAD_THR:
+        rep.count("glue:list")
+        for form in ("list", "tensor"):
+            v = glue_verdict(form, l)
+            if v:
+                rep.violation(v[0], v[1], {"kind": "glue", "form": form, "glue": list(l)})
+                return
 
 # ------------------------------------------------------------------ class forms
 
@@ -692,35 +727,55 @@ def search(rep: Report):
             return
         if fn == "multiclass_binned_auroc":
             continue        # recorded finding (per-sample output), replayed on its witness by check_known_finding()
-        if replay_case(fn, kw) is False:
-            real = real_call(fn, kw)
-            rep.violation(sig(fn, kw, "differs-from-per-threshold-counting"), f"{fn} leaves the C06 statement",
-                          {"case": kw_json(fn, kw), "real": real[1] if real[0] == "err" else [x.tolist() for x in real[1]]})
+        real = real_call(fn, kw)
+        v, _agrees = statement_verdict(fn, kw, real)
+        if v is not None:
+            rep.violation(v[0], v[1], {"kind": "functional", "case": kw_json(fn, kw), "real": outs_json(real), **v[2]})
             return
 
 
 def replay_case(fn, kw) -> bool:
     """True iff the C06 statement holds on this input (oracles only, no model)."""
-    real = real_call(fn, kw)
-    if oracle_agrees(real, oracle(fn, kw)) is False:
-        return False
-    t = thr_fracs(kw["threshold"])
-    if kw.get("optimization") in ("vectorized", "memory") and t and not same_outputs(real, real_call(fn, other_mode(kw))):
-        return False
-    if fn.split("_binned_")[1] in ("auroc", "auprc") and real[0] == "ok" and t and t[0] == 0:
-        expf = oracle(fn, kw, floored=True)
-        if expf is not None and not lists_close(flat_real(real), expf, 2e-5):
-            return False
-    return True
+    v, _agrees = statement_verdict(fn, kw, real_call(fn, kw))
+    if v is not None:
+        print(f"replay: {v[0]}: {v[1]}"[:700])
+    return v is None
+
+
+def _nothing(reason):
+    raise ValueError(f"nothing to replay: {reason}")
 
 
 def replay(payload) -> bool:
-    r = payload["replay"]
-    if "glue" in r:
-        rep = Report("C06", "quick", 0)
-        check_threshold_glue(rep)
-        return not rep.violations
-    if "case" not in r:
-        return True
-    fn, kw = kw_from_json(r["case"])
+    """True iff the property holds on the recorded input:
+    `kind: functional` (or a recorded `case` with dtypes) -> `statement_verdict` on the rebuilt call (every relation of the sweep);
+    `kind: witness`    -> `floored_verdict` on the rebuilt call;   `kind: glue` -> `glue_verdict` on the recorded threshold argument."""
+    if not isinstance(payload, dict) or payload.get("kind", "failing-input") != "failing-input":
+        _nothing(f"payload kind {payload.get('kind') if isinstance(payload, dict) else None!r} carries no concrete input")
+    r = payload.get("replay")
+    if not isinstance(r, dict) or not r:
+        _nothing("the payload carries no replay dict")
+    kind = r.get("kind")
+    if kind == "glue" or (kind is None and "glue" in r):
+        val = r.get("glue")
+        form = r.get("form") or ("int" if isinstance(val, int) else None)
+        if form not in ("int", "list", "tensor") or val is None or (form == "int") != isinstance(val, int):
+            _nothing("glue payload without the form (int / list / tensor) of the threshold argument")
+        v = glue_verdict(form, val)
+        if v:
+            print(f"replay: {v[0]}: {v[1]}")
+        return v is None
+    c = r.get("case")
+    if kind not in (None, "functional", "witness") or not isinstance(c, dict):
+        _nothing(f"replay kind {kind!r} carries no functional case")
+    if "fn" not in c or "threshold" not in c or not all(k in c and (k + ".dtype") in c and (k + ".shape") in c for k in ("input", "target")):
+        _nothing("the recorded case lacks the function name, the threshold or the dtype / shape of its tensors")
+    fn, kw = kw_from_json(c)
+    if not hasattr(F, fn) or "_binned_" not in fn:
+        _nothing(f"not a binned functional: {fn!r}")
+    if kind == "witness":
+        v = floored_verdict(fn, kw, real_call(fn, kw))
+        if v:
+            print(f"replay: {v[0]}: {v[1]}"[:700])
+        return v is None
     return replay_case(fn, kw)
